@@ -27,7 +27,7 @@ EXPLANATION = (
     "UnboundLocalError caused by value-level invariants (a handler running before the assignments of its try body, an empty loop) - R6 decides the branch-induced part only: (R6) no function reachable from validate reads a local that a branch-only path from its entry leaves unassigned (CFG may-analysis with correlated guards pruned)."
 )
 LEVEL_RULE = "one obligation per restore pattern / run_check site / typestate use / reachable raise statement"
-FLOORS = {"R1": 2, "R2": 5, "R3": 4, "R4": 40, "R5": 2, "R6": 1}
+FLOORS = {"R1": 2, "R2": 5, "R3": 4, "R4": 40, "R5": 2, "R6": 1, "R7": 2}
 
 DOCUMENTED = {"SchemaError", "SchemaErrors", "SchemaDefinitionError", "SchemaInitError", "ParserError"}
 # raise sites outside the documented set, confirmed by reading (function short name, exception class) -> reason
@@ -103,6 +103,116 @@ def r1_restores(ctx):
                    "the restoring assignment is not in a finally: if validation raises in between, the override stays")
     config_context_restore(ctx, "R1")
     ctx.stats["restore_patterns"] = n
+    r1_collection_restores(ctx)
+
+
+def _derives(fn):
+    """name -> names it is computed from (assignments, loop targets from their iterables, with-as)"""
+    d = {}
+    for n in walk_no_nested(fn):
+        if isinstance(n, ast.Assign):
+            src = {x.id for x in ast.walk(n.value) if isinstance(x, ast.Name)}
+            for t in n.targets:
+                for x in ast.walk(t):
+                    if isinstance(x, ast.Name) and isinstance(x.ctx, ast.Store):
+                        d.setdefault(x.id, set()).update(src)
+        elif isinstance(n, (ast.For, ast.comprehension)):
+            src = {x.id for x in ast.walk(n.iter) if isinstance(x, ast.Name)}
+            for x in ast.walk(n.target):
+                if isinstance(x, ast.Name):
+                    d.setdefault(x.id, set()).update(src)
+    return d
+
+
+SELFTEST_COLLECTION = """
+def unsafe(schema, work):
+    saved = [i.coerce for i in schema.indexes]
+    for i in schema.indexes:
+        i.coerce = False
+    work(schema)
+    for i, old in zip(schema.indexes, saved):
+        i.coerce = old
+
+def safe(schema, work):
+    saved = [i.coerce for i in schema.indexes]
+    try:
+        for i in schema.indexes:
+            i.coerce = False
+        work(schema)
+    finally:
+        for i, old in zip(schema.indexes, saved):
+            i.coerce = old
+"""
+
+
+def r1_collection_restores(ctx, ix=None):
+    """Save / override / restore written with a collection: `saved = [x.attr for x in xs]` ... `for x in xs: x.attr = v`
+    ... `for x, old in zip(xs, saved): x.attr = old`.  Same obligation as the scalar pattern: the restoring store has
+    to sit in a `finally`, otherwise a failing validation in between leaves the override on the caller's schema."""
+    if ix is None:
+        from ..index import Index
+
+        class _S:
+            def __init__(self):
+                self.obs, self.stats = [], {}
+
+            def ob(self, rule, f, construct, ok, detail, loc=None):
+                self.obs.append((f.name, ok))
+        sink = _S()
+        r1_collection_restores(sink, Index.from_sources({"pandera/api/_selftest.py": SELFTEST_COLLECTION}))
+        if sorted(sink.obs) != [("safe", True), ("unsafe", False)]:
+            raise AnalysisError(f"collection-restore self-test failed: {sink.obs}")
+    ix = ix or ctx.ix
+    n = 0
+    for m in ix.modules.values():
+        if not m.path.startswith(("pandera/backends/", "pandera/api/")) or "pyspark" in m.path:
+            continue
+        for f in m.all_functions:
+            stores = [st for st in walk_no_nested(f.node) if isinstance(st, ast.Assign) and len(st.targets) == 1 and isinstance(st.targets[0], ast.Attribute)]
+            if len(stores) < 2:
+                continue
+            saved = {}   # local name -> attribute names whose values it holds
+            for st in walk_no_nested(f.node):
+                if isinstance(st, ast.Assign) and len(st.targets) == 1 and isinstance(st.targets[0], ast.Name):
+                    v = st.value
+                    attrs = set()
+                    if isinstance(v, (ast.ListComp, ast.DictComp, ast.GeneratorExp, ast.SetComp)):
+                        elts = [v.elt] if not isinstance(v, ast.DictComp) else [v.value]
+                        for e in elts:
+                            for x in ast.walk(e):
+                                if isinstance(x, ast.Attribute) and isinstance(x.ctx, ast.Load):
+                                    attrs.add(x.attr)
+                    if attrs:
+                        saved[st.targets[0].id] = attrs
+            if not saved:
+                continue
+            der = _derives(f.node)
+
+            def from_saved(name, attr, seen=()):
+                if name in saved and attr in saved[name]:
+                    return True
+                return any(from_saved(y, attr, seen + (name,)) for y in der.get(name, ()) if y not in seen and y != name)
+
+            for st in stores:
+                t = st.targets[0]
+                if not (isinstance(st.value, ast.Name) and from_saved(st.value.id, t.attr)):
+                    continue
+                # an override of the same attribute elsewhere in the function makes this a restore
+                overrides = [o for o in stores if o is not st and o.targets[0].attr == t.attr]
+                if not overrides:
+                    continue
+                n += 1
+                infin = False
+                ch, p_ = st, parent(st)
+                while p_ is not None and p_ is not f.node:
+                    if isinstance(p_, ast.Try) and any(ch is b for b in p_.finalbody):
+                        infin = True
+                    ch, p_ = p_, parent(p_)
+                ctx.ob("R1", f, f"temporary override of `.{t.attr}` on the elements of a collection is restored", infin,
+                       "restored in a finally: holds on every exit" if infin else
+                       f"`{txt(st)}` (line {st.lineno}) restores the values saved before `{txt(overrides[0])}` but is not in a finally: "
+                       "if validation raises in between, the override stays on the caller's schema", f.loc(st))
+    ctx.stats["collection_restore_patterns"] = n
 
 
 def config_context_restore(ctx, rule):
@@ -627,6 +737,55 @@ def r6_definite_assignment(ctx):
     ctx.stats["definite_assignment_functions"] = n
 
 
+def r7_schema_named_columns_present(ctx):
+    """The joint-uniqueness core check runs even when the column-presence check has already failed (lazy mode collects
+    and goes on) and for optional columns that are absent.  Selecting a schema-named column the frame does not have
+    raises inside pandas / polars (KeyError / ColumnNotFoundError), which is not a documented outcome - so on both
+    backends the column list handed to duplicated()/select()/loc is first intersected with the frame's columns."""
+    from ..expand import expanded
+    from ..util import Expander
+    from .c08 import PDC, PLC
+    ix = ctx.ix
+    for q in (PDC, PLC):
+        f0 = ix.cls(q).lookup("check_column_values_are_unique")
+        if f0 is None:
+            raise AnalysisError(f"{q}.check_column_values_are_unique missing")
+        ctx.touched(f0)
+        f = expanded(ix, f0)
+        data = f0.positional[1]
+        ex = Expander(f.node)
+        uses = []
+        for c in calls_in(f.node):
+            if callee_last(c) in ("select", "duplicated", "is_duplicated") and isinstance(c.func, ast.Attribute):
+                a = kw(c, "subset") or (c.args[0] if c.args else None)
+                if a is not None and txt(c.func.value).split(".")[0] == data:
+                    uses.append((c, a))
+        for n in walk_no_nested(f.node):
+            if isinstance(n, ast.Subscript) and isinstance(n.ctx, ast.Load) and txt(n.value) in (data, f"{data}.loc"):
+                sl = n.slice.elts[-1] if isinstance(n.slice, ast.Tuple) else n.slice
+                if isinstance(sl, ast.Name):
+                    uses.append((n, sl))
+        flavour = "polars" if "/polars/" in q else "pandas"
+        if not uses:
+            raise AnalysisError(f"{flavour} check_column_values_are_unique: no column selection found")
+        for node, a in uses:
+            filt = False
+            for d in ex.closure(a):
+                for x in ast.walk(d):
+                    if isinstance(x, ast.comprehension):
+                        for cond in x.ifs:
+                            for cmp_ in ast.walk(cond):
+                                if isinstance(cmp_, ast.Compare) and len(cmp_.ops) == 1 and isinstance(cmp_.ops[0], ast.In) \
+                                        and data in {nm.id for nm in ast.walk(cmp_.comparators[0]) if isinstance(nm, ast.Name)}:
+                                    filt = True
+                    if isinstance(x, ast.Call) and callee_last(x) in ("intersection",) and data in txt(x):
+                        filt = True
+            ctx.ob("R7", f0, f"{flavour} joint uniqueness: `{txt(node)[:50]}` selects only columns the frame has", filt,
+                   "column list is filtered by membership in the frame's columns" if filt else
+                   f"`{txt(a)}` comes straight from schema.unique: with lazy=True (presence failure only collected) or an optional absent column "
+                   "the selection raises KeyError / ColumnNotFoundError out of validate", f0.loc(node))
+
+
 def run(ctx):
     r1_restores(ctx)
     r2_fences(ctx)
@@ -634,4 +793,5 @@ def run(ctx):
     r4_raises(ctx)
     r5_duplicate_level_names(ctx)
     r6_definite_assignment(ctx)
+    r7_schema_named_columns_present(ctx)
     ctx.assume("exceptions raised inside pandas/polars/numpy calls are not modelled")
